@@ -104,6 +104,8 @@ def gen_program(rng, profile="general", payload=None, cap="rand"):
         return gen_chain(rng, payload, cap)
     if profile == "chain_s":
         return gen_chain(rng, payload, cap, side="s")
+    if profile == "chain_drain":
+        return gen_chain(rng, payload, cap, side="s", serve="drain")
     if profile == "chain_z":
         # zero-sized payloads (no identity: count-based oracles) on the ordered blocking scenarios, buffered channels only
         return gen_chain(rng, rng.choice(["z0", "z0", "z64"]), rng.choice([1, 1, 2]), side="s")
@@ -275,7 +277,7 @@ def gen_program(rng, profile="general", payload=None, cap="rand"):
     return {"cap": capv, "payload": pl, "procs": procs}
 
 
-def gen_chain(rng, payload=None, cap="rand", side=None):
+def gen_chain(rng, payload=None, cap="rand", side=None, serve=None):
     """Ordered blocking scenario: k waiters of one side register one per phase (barriers), some of them are
     cancelled from the middle of the waiting list (timed expiry once the clock starts ticking, dropped futures),
     then the other side arrives and serves the rest."""
@@ -296,13 +298,17 @@ def gen_chain(rng, payload=None, cap="rand", side=None):
         fill = [{"op": "try_send", "h": 0, "m": nm()} for _ in range(capv or 0)]
         procs.append({"phase": 0, "handles": [rng.choice(["ss", "as"])], "ops": fill})
         for j in range(1, k + 1):
-            kind = rng.choice(["send", "send", "asend", "asend_cancel", "timed_cancel", "timed_opt_cancel", "timed_long"])
+            kind = rng.choice(["send", "send", "asend", "asend_repoll", "asend_repoll", "asend_cancel", "timed_cancel", "timed_opt_cancel", "timed_long"])
             ops = [{"op": "barrier", "ph": j}]
             m = nm()
             if kind == "send":
                 ops.append({"op": "send", "h": 0, "m": m})
             elif kind == "asend":
                 ops += [{"op": "asend_new", "h": 0, "f": 0, "m": m}, {"op": "poll", "f": 0, "w": 1}, {"op": "await", "f": 0, "w": rng.choice([1, 2])}]
+            elif kind == "asend_repoll":
+                # polled again with a different waker after younger waiters have registered: must keep its place
+                ops += [{"op": "asend_new", "h": 0, "f": 0, "m": m}, {"op": "poll", "f": 0, "w": 1},
+                        {"op": "barrier", "ph": cancel_ph}, {"op": "poll", "f": 0, "w": 2}, {"op": "await", "f": 0, "w": 3}]
             elif kind == "asend_cancel":
                 ops += [{"op": "asend_new", "h": 0, "f": 0, "m": m}, {"op": "poll", "f": 0, "w": 1},
                         {"op": "barrier", "ph": cancel_ph}, {"op": "drop_fut", "f": 0}]
@@ -341,10 +347,15 @@ def gen_chain(rng, payload=None, cap="rand", side=None):
                 rops.append({"op": "drop_fut", "f": f})
                 f += 1
             i += 1
+        if serve == "drain":
+            # C19: everything available is taken by one drain_into (vector states: empty, spare capacity, old contents)
+            rops = [{"op": "barrier", "ph": serve_ph},
+                    {"op": "drain_into", "h": 0, "pre": rng.choice([0, 0, 1, 2]), "spare": rng.choice([0, 2, 8])},
+                    {"op": "try_recv", "h": 0}, {"op": "len", "h": 0}]
         procs.append({"phase": 0, "handles": [rng.choice(["sr", "ar"])], "ops": rops})
     else:
         for j in range(1, k + 1):
-            kind = rng.choice(["recv", "recv", "arecv", "arecv_cancel", "timed_cancel", "timed_long", "stream"])
+            kind = rng.choice(["recv", "recv", "arecv", "arecv_repoll", "arecv_repoll", "arecv_cancel", "timed_cancel", "timed_long", "stream"])
             ops = [{"op": "barrier", "ph": j}]
             if kind == "recv":
                 ops.append({"op": "recv", "h": 0})
@@ -352,6 +363,9 @@ def gen_chain(rng, payload=None, cap="rand", side=None):
                 ops += [{"op": "arecv_new", "h": 0, "f": 0}, {"op": "poll", "f": 0, "w": 1}, {"op": "await", "f": 0, "w": rng.choice([1, 2])}]
             elif kind == "stream":
                 ops += [{"op": "stream_new", "h": 0, "f": 0}, {"op": "poll", "f": 0, "w": 1}, {"op": "await", "f": 0, "w": 1}, {"op": "drop_fut", "f": 0}]
+            elif kind == "arecv_repoll":
+                ops += [{"op": "arecv_new", "h": 0, "f": 0}, {"op": "poll", "f": 0, "w": 1},
+                        {"op": "barrier", "ph": cancel_ph}, {"op": "poll", "f": 0, "w": 2}, {"op": "await", "f": 0, "w": 3}]
             elif kind == "arecv_cancel":
                 ops += [{"op": "arecv_new", "h": 0, "f": 0}, {"op": "poll", "f": 0, "w": 1},
                         {"op": "barrier", "ph": cancel_ph}, {"op": "drop_fut", "f": 0}]
@@ -527,6 +541,52 @@ def gen_progress(rng):
     st = {"spin_bias": rng.choice([0.9, 0.995, 0.999]), "p_switch": rng.choice([0.02, 0.1, 0.5]),
           "p_spurious": rng.choice([0.0, 0.2, 0.4]), "q_tick": 0.0, "tick_phase": 3}
     return {"cap": cap, "payload": rng.choice(["w1", "b3", "h4", "u8", "u16", "p5"]), "procs": procs, "strat": st}
+
+
+def gen_integrity_race(rng, k, payload):
+    """C04 under a race: one waiter of any kind (a future whose next poll comes with a different waker, a parked or timed
+    thread) holds / expects one value of a chosen bit pattern; the claimer of the other side arrives one phase later and is
+    cut (solo freeze sweep) before each of its hooks -- in particular between taking the waiter's signal and finishing the
+    copy -- while the waiter may be re-polled / woken spuriously, return, and have its storage poisoned or reused."""
+    side = rng.choice("sr")
+    if payload == "u8":
+        v = (k * 7) % 256
+    elif payload == "u16":
+        v = [0, 1, 255, 256, 0x7FFF, 0x8000, 0xFFFF, 0xAAAA, 0x5555][k % 9]
+    else:
+        v = 1 + k % 180
+    kind = rng.choice(["async_chg", "async_chg", "async_chg2", "sync", "timed"])
+    wflav = rng.choice(["a", "a", "s"]) + side
+    cflav = rng.choice(["s", "a"]) + ("r" if side == "s" else "s")
+    if side == "s":
+        new = {"op": "asend_new", "h": 0, "f": 0, "m": v}
+        sync = {"op": "send", "h": 0, "m": v}
+        timed = {"op": rng.choice(["send_timeout", "send_option_timeout"]), "h": 0, "m": v, "d": 400}
+        claim = rng.choice([[{"op": "recv", "h": 0}], [{"op": "try_recv", "h": 0}], [{"op": "try_recv_realtime", "h": 0}], [{"op": "recv_timeout", "h": 0, "d": 400}],
+                            [{"op": "iter_next", "h": 0}], [{"op": "arecv_new", "h": 0, "f": 0}, {"op": "await", "f": 0, "w": 1}, {"op": "drop_fut", "f": 0}],
+                            [{"op": "drain_into", "h": 0, "pre": 0, "spare": 2}]])
+    else:
+        new = {"op": "arecv_new", "h": 0, "f": 0}
+        sync = {"op": rng.choice(["recv", "iter_next"]), "h": 0}
+        timed = {"op": "recv_timeout", "h": 0, "d": 400}
+        claim = rng.choice([[{"op": "send", "h": 0, "m": v}], [{"op": "try_send", "h": 0, "m": v}], [{"op": "try_send_realtime", "h": 0, "m": v}],
+                            [{"op": "try_send_option", "h": 0, "m": v}], [{"op": "send_timeout", "h": 0, "m": v, "d": 400}],
+                            [{"op": "asend_new", "h": 0, "f": 0, "m": v}, {"op": "await", "f": 0, "w": 1}, {"op": "drop_fut", "f": 0}]])
+    if kind == "async_chg":
+        # the poll with a new waker happens in the race phase (while the claimer is cut somewhere inside its call)
+        w = [new, {"op": "poll", "f": 0, "w": 1}, {"op": "barrier", "ph": 1}, {"op": "poll", "f": 0, "w": 2}, {"op": "await", "f": 0, "w": 3}, {"op": "drop_fut", "f": 0}]
+    elif kind == "async_chg2":
+        w = [new, {"op": "poll", "f": 0, "w": 1}, {"op": "poll", "f": 0, "w": 2}, {"op": "barrier", "ph": 1}, {"op": "poll", "f": 0, "w": 3}, {"op": "await", "f": 0, "w": 1},
+             {"op": "drop_fut", "f": 0},
+             # the slot is reused at once by the next operation of the same process
+             dict(new, f=1, **({"m": 189} if side == "s" else {})), {"op": "poll", "f": 1, "w": 1}, {"op": "drop_fut", "f": 1}]
+    elif kind == "sync":
+        w = [sync, {"op": "len", "h": 0}]
+    else:
+        w = [timed, {"op": "len", "h": 0}]
+    procs = [{"phase": 0, "handles": [wflav], "ops": w},
+             {"phase": 0, "handles": [cflav], "ops": [{"op": "barrier", "ph": 1}] + claim}]
+    return {"cap": 0, "payload": payload, "procs": procs, "strat": {"q_tick": 0.0, "spin_bias": 0.995, "p_switch": 0.1, "tick_phase": 9}}
 
 
 def _waiter_ops(rng, side, kind, m, f=0):
